@@ -97,8 +97,8 @@ func (fe *FuncEnc) logSet(st *State, name string, k, v Term) {
 }
 
 func (fe *FuncEnc) monCall(f *Frame, callee *ssa.Function, name string, args []Term, st *State, path Term, pos token.Pos) ([]Term, bool) {
-	if name != evalFuncName || f.parent != nil {
-		return nil, false
+	if name != evalFuncName || (f.parent != nil && f.borrow == nil) {
+		return nil, false // (an inlined loop helper without contract acts as part of the top invocation)
 	}
 	con := fe.eng.contracts[name]
 	if con == nil {
@@ -127,7 +127,7 @@ func (fe *FuncEnc) monInvoke(f *Frame, iface, method string, recv Term, args []T
 
 // invokeLogged wraps an interface-contract call of Callable.Call with the log update and the E1 obligation.
 func (fe *FuncEnc) invokeLogged(f *Frame, recv Term, args []Term, st *State, path Term, pos token.Pos, do func() []Term) []Term {
-	if f.mon == nil || f.parent != nil {
+	if (f.mon == nil && (f.borrow == nil || f.borrow.mon == nil)) || (f.parent != nil && f.borrow == nil) {
 		return do()
 	}
 	flag := fe.comp(st, "G_utils_HadRuntimeError", SBool)
@@ -168,7 +168,7 @@ func (fe *FuncEnc) effectE2(f *Frame, stubName string, st *State, path Term, pos
 // that make the outcome independent of the order (they are proved like any other clause; the independence argument itself
 // is listed as an assumption).
 func (fe *FuncEnc) nondetMapRange(f *Frame, x *ssa.Range, path Term) {
-	if f.parent != nil {
+	if f.parent != nil && f.borrow == nil {
 		return
 	}
 	ci := analyzeCFG(f.fn)
